@@ -21,6 +21,7 @@ import (
 	"fmt"
 	"reflect"
 	"regexp"
+	"sort"
 	"strconv"
 	"strings"
 	"time"
@@ -191,8 +192,23 @@ func validateStruct(val reflect.Value, opts *options) error {
 	return nil
 }
 
+// sortedMapKeys returns the keys of the map m in a fixed order, so that the
+// entry reported when more than one entry is invalid does not depend on the
+// iteration order of the map.
+func sortedMapKeys(m reflect.Value) []reflect.Value {
+	keys := m.MapKeys()
+	name := func(k reflect.Value) string {
+		if k.Kind() == reflect.String {
+			return k.String()
+		}
+		return fmt.Sprint(k.Interface())
+	}
+	sort.Slice(keys, func(i, j int) bool { return name(keys[i]) < name(keys[j]) })
+	return keys
+}
+
 func validateMap(val reflect.Value, opts *options) error {
-	for _, key := range val.MapKeys() {
+	for _, key := range sortedMapKeys(val) {
 		if err := tryRecursiveValidate(val.MapIndex(key), opts, nil); err != nil {
 			return err
 		}
